@@ -6,19 +6,17 @@
      C44_eventually : read-write mode /\ epochs advance /\ no new operations ->
         exists n, after n passes every such object has neither data nor metadata, expired tombstones and
         locks are removed, removed containers' buckets are gone.
-   Proved below (names ..._partial): the garbage half at full strength -- after finitely many passes (at most
-   size+1) no garbage key and no removed container is left, for every batch size >= 1, whatever the clocks
-   say, with the measure [msize] = number of buckets + stored headers + garbage keys, which no pass increases
-   and every pass with a non-empty garbage list strictly decreases.  Marked objects, objects of removed
-   containers and tombstoned objects (an accepted tombstone leaves a garbage key on its target) are
-   exactly the owners of those keys, and deleteObjs removes key, header and data together
-   (GC/Lemmas.delete_objs_gone).  NOT proved in Coq: the expired half (collectExpiredObjects makes
-   progress batch by batch and marks the epoch processed only when nothing is left; needs one epoch
-   advance after the garbage is drained) and the persistence argument; both are checked on every run by
-   the oracles 60/61 of GC/Check.v on real shards drained over two epoch advances.
+   Proved below: C44_eventually_partial -- for every well-formed state of the fragment in which stored
+   tombstoned objects carry a garbage key, every batch size >= 1 and every later epoch e': after n1 passes,
+   one epoch advance to e' and n2 more passes the garbage lists are empty, no removed container is left, the
+   epoch is processed and no stored object should go at e' (not tombstoned, not marked, not expired-and-
+   unlocked; tombstones and locks included).  Measure [msize] = buckets + stored headers + garbage keys.
+   "partial": final-state form (persistence of "the same object" and "no data without metadata" are checked
+   by oracles 61/63 on every run, not proved); ts_inv is a premise (preserved by passes: ts_inv_pass; checked
+   on every replayed state by oracle 62).  One epoch advance AFTER the garbage is drained is needed: a lock
+   removed as garbage can unprotect an expired object after collectExpiredObjects marked the epoch processed.
    Premise excluding persistently failing deletes: the model has no failing component calls (metabase
-   Delete error = the whole batch is retried forever; BLOB delete error = data left behind without
-   metadata) -- stated in META, not exercised.
+   Delete error = the same batch is retried forever; BLOB delete error = data left without metadata).
 
    Refuted outside the fragment (known finding c44-nonphy-parent-starvation): with objects that carry
    a parent header, the non-physical parent entry gets a garbage key (tombstone of the parent) that
@@ -30,17 +28,32 @@ Import ListNotations.
 From NV Require Import Meta.SMap Meta.Model Meta.Spec Meta.WfProofs GC.Model GC.Spec GC.Lemmas GC.C07Proofs GC.C44Proofs.
 Local Open Scope N_scope.
 
-Theorem C44_pass_progress_partial : forall limit s,
+Theorem C44_pass_progress : forall limit s,
   inv s -> (0 < limit)%nat ->
   inv (gc_pass limit s) /\ (msize (gc_pass limit s) <= msize s)%nat /\
   ((msize (gc_pass limit s) < msize s)%nat \/ garbage_free (sh_meta (gc_pass limit s)) = true).
 Proof. exact pass_progress. Qed.
 
-Theorem C44_garbage_eventually_partial : forall limit, (0 < limit)%nat -> forall k s,
+Theorem C44_garbage_eventually : forall limit, (0 < limit)%nat -> forall k s,
   inv s -> (msize s <= k)%nat ->
   exists n, (n <= S k)%nat /\ inv (gc_iter limit n s) /\ garbage_free (sh_meta (gc_iter limit n s)) = true /\
             (msize (gc_iter limit n s) <= msize s)%nat.
 Proof. exact garbage_eventually. Qed.
+
+Theorem C44_expired_eventually : forall limit, (0 < limit)%nat -> forall k s e d,
+  inv s -> gfree s -> ts_inv s -> epoch (sh_meta s) = e -> sh_cur s = e -> sh_done s = d -> d < e -> (msize s <= k)%nat ->
+  exists n, inv (gc_iter limit n s) /\ gfree (gc_iter limit n s) /\ ts_inv (gc_iter limit n s) /\
+            epoch (sh_meta (gc_iter limit n s)) = e /\ sh_cur (gc_iter limit n s) = e /\ sh_done (gc_iter limit n s) = e /\
+            view_expired (sh_meta (gc_iter limit n s)) e = [].
+Proof. exact expired_eventually. Qed.
+
+Theorem C44_eventually_partial : forall limit, (0 < limit)%nat -> forall s e',
+  inv s -> ts_inv s -> sh_cur s < e' -> sh_done s < e' ->
+  exists n1 n2,
+    let s3 := gc_iter limit n2 (fst (sstep limit (gc_iter limit n1 s) (STick e'))) in
+    inv s3 /\ garbage_free (sh_meta s3) = true /\ sh_done s3 = e' /\ sh_cur s3 = e' /\ epoch (sh_meta s3) = e' /\
+    forall c b x, bucket (sh_meta s3) c = Some b -> sm_get x (objs b) <> None -> should_go_in b e' x = false.
+Proof. exact eventually_clean. Qed.
 
 (* what a delete of the GC removes: header, garbage key and data together *)
 Theorem C44_delete_removes_all : forall s c ids x b,
@@ -65,6 +78,20 @@ Example C44_nonvacuous :
   gone (gc_iter 1 7 g_state) 1 1 = true /\ gone (gc_iter 1 7 g_state) 1 2 = true /\ gone (gc_iter 1 7 g_state) 2 1 = true /\
   gone (gc_iter 1 7 g_state) 3 1 = true /\ bucket (sh_meta (gc_iter 1 7 g_state)) 3 = None /\
   stored_at (sh_meta (gc_iter 1 7 g_state)) 2 2 = true /\ blob_has (sh_blob (gc_iter 1 7 g_state)) 2 2 = true.
+Proof. vm_compute. repeat split; reflexivity. Qed.
+
+(* expired objects straddling batches, an expired lock and an expired tombstone: batch size 1, one advance to epoch 5 *)
+Definition x_reg (id : oid) (e : N) := Obj id (mkHdr TRegular 5 (Some e) None None None None None None) None.
+Definition x_hist : list sop :=
+  [SPut 1 (x_reg 1 1); SPut 1 (x_reg 2 2); SPut 1 (x_reg 3 9);
+   SPut 1 (Obj 4 (mkHdr TLock 0 (Some 3) (Some 2) None None None None None) None);
+   SPut 1 (Obj 5 (mkHdr TTombstone 0 (Some 2) (Some 3) None None None None None) None)].
+Definition x_state : shard := srun 1 x_hist.
+Example C44_nonvacuous_expired :
+  let s3 := gc_iter 1 6 (fst (sstep 1 (gc_iter 1 2 x_state) (STick 5))) in
+  garbage_free (sh_meta (gc_iter 1 2 x_state)) = true /\ sh_done s3 = 5 /\
+  gone s3 1 1 = true /\ gone s3 1 2 = true /\ gone s3 1 4 = true /\ gone s3 1 5 = true /\
+  gone s3 1 3 = true /\ clean_at s3 5 = true.
 Proof. vm_compute. repeat split; reflexivity. Qed.
 
 (* ---- the starvation witness (outside the fragment: child 5 carries the header of its parent 1) *)
@@ -93,5 +120,5 @@ Example C44_starvation_needs_small_batch :
   garbage_free (sh_meta (gc_iter 2 4 (srun 2 st_hist))) = true.
 Proof. vm_compute. reflexivity. Qed.
 
-Print Assumptions C44_garbage_eventually_partial.
+Print Assumptions C44_eventually_partial.
 Print Assumptions C44_eventually_refuted_nonphy_parent.
